@@ -96,11 +96,26 @@ class Resp:
         return sorted(o for o in out if 0 <= o <= len(msg))
 
 
-def mk_resp(tag, method="GET", version=b"1.1", status=200, conn=None, mode="cl", surplus=b"", interim=0, conn_name=b"Connection"):
-    body = (b"body-" + tag) if mode != "nobody" else b""
+READ_CHUNK = 8192      # executeRequest's receive buffer: one receiveSync hands over at most this many bytes
+
+
+def mk_resp(tag, method="GET", version=b"1.1", status=200, conn=None, mode="cl", surplus=b"", interim=0, conn_name=b"Connection", total=None, pad=0):
+    """`total`: pad (the body, or an X-Pad field for body-less responses) so that the message without surplus is exactly that long"""
+    if total is not None:
+        base = len(mk_resp(tag, method, version, status, conn, mode, b"", interim, conn_name).wire)
+        need = total - base
+        # length digits (Content-Length / chunk sizes) may grow with the padding: search around the naive value
+        for p in range(max(need - 12, 1), need + 1):
+            r = mk_resp(tag, method, version, status, conn, mode, surplus, interim, conn_name, pad=p)
+            if len(r.wire) - len(surplus) == total:
+                return r
+        raise ValueError("cannot pad a %s response to %d" % (mode, total))
+    body = (b"body-" + tag + b"." * pad) if mode != "nobody" else b""
     reason = {200: b"OK", 201: b"Created", 204: b"No Content", 304: b"Not Modified", 404: b"Not Found", 500: b"Oops", 503: b"Busy"}.get(status, b"X")
     head = b"HTTP/" + version + b" " + str(status).encode() + b" " + reason + b"\r\n"
     head += b"X-Tag: " + tag + b"\r\n"
+    if mode == "nobody" and pad:
+        head += b"X-Pad: " + b"p" * max(pad - 9, 0) + b"\r\n"
     if conn is not None:
         head += conn_name + b": " + conn + b"\r\n"
     if mode == "cl":
@@ -192,7 +207,12 @@ def tok_client(cls):
     return cls + "@" + conc()
 
 
-def tok_ok(r, async_ok=True, cut=0):
+def tok_ok(r, async_ok=True, cut=0, residue=False):
+    """residue: bytes follow the message in the same write but the read that completes the message stops exactly at its end,
+    so the framer never sees them (they stay in the transport); the model is told `residue` instead of `surplus`"""
+    if residue:
+        sem = "%d,%s,%s,0" % (r.status, "~" if r.conn is None else hexs(r.conn), hexs(r.version))
+        return "K:%s:%d:1@%s" % (sem, 1 if async_ok else 0, conc(resp=r.wire, cut=cut, xbody=r.body))
     return "K:%s:%d@%s" % (r.sem(), 1 if async_ok else 0, conc(resp=r.wire, cut=cut, xbody=r.body))
 
 
@@ -368,6 +388,57 @@ def gen_persistent(rng, seq):
                 else:
                     t = rand_fault(rng, "V", tag, method, s, 0, True)
                 cases.append({"cat": "persistent", "ops": ["reset 1 0 50", req_op(method, budget, 0, 0, [t] * (budget + 3))]})
+    return cases
+
+
+FORGED = b"HTTP/1.1 200 OK\r\nContent-Length: 6\r\n\r\nFORGED"
+
+
+def gen_read_boundary(rng, seq, thorough):
+    """Responses whose length is at / just below / just above a multiple of the client's read size (8192), for every framing
+    mode, without surplus, with surplus in the SAME write, and with surplus in a LATER write; each followed by a second request
+    that shows whether the connection was kept. With surplus in the same write the connection must be gone whatever the
+    alignment (at k*8192 the framer is never handed the surplus: it is residue in the transport when the reuse decision is taken).
+    Surplus in a later write arrives after the decision (the client cannot know): judged by the monitors only — reuse is allowed,
+    misattribution is not."""
+    cases = []
+    ks = (1, 2, 3) if not thorough else (1, 2, 3, 4, 5)
+    for k in ks:
+        for delta in (-1, 0, 1):
+            for mode, method in (("cl", "GET"), ("chunked", "POST"), ("nobody", "HEAD"), ("cl", "PUT")):
+                if mode == "nobody" and k > 2 and not thorough:
+                    continue
+                total = k * READ_CHUNK + delta
+                for placement in ("none", "same", "later"):
+                    seq.next()
+                    tag = ("b%d" % seq.n).encode()
+                    surplus = b"" if placement == "none" else rng.choice([FORGED, b"X", b"\r\n"])
+                    r = mk_resp(tag, method, mode=mode, surplus=surplus, total=total)
+                    assert len(r.wire) - len(surplus) == total
+                    if placement == "same":
+                        t = tok_ok(r, True, 0, residue=(delta == 0))
+                    elif placement == "later":
+                        t = tok_ok(r, True, total)          # pause at the end of the message, then the surplus
+                    else:
+                        t = tok_ok(r)
+                    seq.next()
+                    follow = tok_ok(mk_resp(tag + b"n", "GET"))
+                    first, second = req_op(method, 0, 0, 0, [t, follow]), req_op("GET", 0, 0, 0, [follow, follow])
+                    if placement == "later":
+                        # the client stays idle until the late write has arrived; a request issued at once would race with it,
+                        # and bytes that arrive after a request was sent are that request's response by definition
+                        cases.append({"cat": "late-surplus", "ops": ["reset 1 0 50", first, "pause 15", second]})
+                    else:
+                        cases.append({"cat": "read-boundary", "ops": ["reset 1 0 50", first, second]})
+        # close-delimited bodies ending on the boundary (never reusable; the boundary must not change that)
+        for delta in (-1, 0, 1):
+            seq.next()
+            tag = ("b%d" % seq.n).encode()
+            r = mk_resp(tag, "GET", mode="close", total=k * READ_CHUNK + delta)
+            t = "D:%s@%s" % (r.sem(), conc(resp=r.wire, j=len(r.wire), act="f", xbody=r.body))
+            seq.next()
+            follow = tok_ok(mk_resp(tag + b"n", "GET"))
+            cases.append({"cat": "read-boundary", "ops": ["reset 1 0 50", req_op("GET", 0, 0, 0, [t, follow]), req_op("GET", 0, 0, 0, [follow, follow])]})
     return cases
 
 
@@ -617,6 +688,7 @@ class Tok:
         self.xbody = None if len(cs) < 6 or cs[5] == "~" else cs[5]
         self.conn = self.version = None
         self.surplus = False
+        self.residue = False
         self.async_ok = True
         if self.cls in "KD":
             f = sem.split(":")
@@ -626,9 +698,11 @@ class Tok:
             self.surplus = sp == "1"
             if self.cls == "K":
                 self.async_ok = f[2] == "1"
+                self.residue = len(f) > 3 and f[3] == "1"
 
     def reusable(self, reuse_cfg):
-        return (self.cls == "K" and reuse_cfg and not py_close_signalled(self.conn, self.version) and not self.surplus and self.async_ok)
+        return (self.cls == "K" and reuse_cfg and not py_close_signalled(self.conn, self.version) and not self.surplus and
+                not self.residue and self.async_ok)
 
 
 def parse_req(op):
@@ -645,12 +719,15 @@ def monitor_case(c, impl, consts):
                 bad.append("%s: %s -> implementation says %s, the reference (RFC 9110 §9.2.2 / RFC 7230 §6.1) says %s" % (tag, op, l, e))
         return bad
     closed = set()
+    tainted = {}          # server-side connection number -> why no later request may arrive on it
+    judged_by_monitors_only = c["cat"] in ("racy", "late-surplus")
     reuse_cfg = True
     realtime = False
     for op, l in zip(c["ops"], impl):
         if op.startswith("reset "):
             reuse_cfg = op.split()[1] == "1"
             closed = set()
+            tainted = {}
             continue
         if op.startswith("vclock "):
             realtime = op.split()[1] == "0"
@@ -699,8 +776,21 @@ def monitor_case(c, impl, consts):
                 bad.append("R4: request sent on session %s after it had been closed/evicted (engine trace %s)" % (e[1:], f["ev"]))
         cached_hosts = set(x.split("#")[0] for x in f.get("cache", "-").split(",") if x != "-")
         last = script[att - 1] if 0 < att <= len(script) else None
+        # server side: requests per accepted connection — none may arrive on a connection that saw a failure, a close or surplus bytes
+        srv = [x.split(":") for x in f.get("srv", "-").split(",") if x != "-"]
+        for e in srv:
+            if len(e) >= 4 and int(e[1]) > 0 and e[0] in tainted:
+                bad.append("R4: a request arrived on server connection %s, which earlier %s" % (e[0], tainted[e[0]]))
+        for e in srv:
+            if len(e) >= 4 and e[3] not in ("answered", "?"):
+                tainted[e[0]] = "was cut by the server (%s)" % e[3]
+        if last is not None and last.cls in "KD" and srv and len(srv[-1]) >= 4 and srv[-1][3] == "answered":
+            if last.surplus or last.residue:
+                tainted[srv[-1][0]] = "carried surplus bytes behind a response (in the same write)"
+            elif last.cls == "D" or py_close_signalled(last.conn, last.version):
+                tainted[srv[-1][0]] = "carried a response that signalled close"
         # (L leaves the cache alone; R/B only bite when a connection has to be opened, which the monitor does not track)
-        if last is not None and m["url_kind"] != 9 and last.cls not in "LRB" and c["cat"] != "racy" and not last.reusable(reuse_cfg):
+        if last is not None and m["url_kind"] != 9 and last.cls not in "LRB" and not judged_by_monitors_only and not last.reusable(reuse_cfg):
             if "h%d" % host in cached_hosts:
                 bad.append("R4: a connection stays cached after an exchange that forbids reuse (class %s, %s)" % (last.cls, last.sem[:60]))
         if f.get("leased") != "0":
@@ -784,6 +874,7 @@ def run(ctx: Ctx):
             cases += gen_random(rng.fork("seq"), seq, 350 if quick else 9000)
             cases += gen_offsets(rng.fork("off"), seq, every_byte=not quick)
             cases += gen_persistent(rng.fork("pers"), seq)
+            cases += gen_read_boundary(rng.fork("rb"), seq, not quick)
             cases += gen_racy(rng.fork("racy"), seq, 40 if quick else 600)
             cases += gen_realtime(rng.fork("rt"), seq, 4 if quick else 12)
         n_mismatch = 0
@@ -819,7 +910,7 @@ def run(ctx: Ctx):
                             dist[k] = dist.get(k, 0) + 1
                         k = "res:" + fields_of(l).get("res", "?")
                         dist[k] = dist.get(k, 0) + 1
-                mism = [] if c["cat"] == "racy" else [(i, a, b) for i, (a, b) in enumerate(zip(impl, model)) if compared(a) != b]
+                mism = [] if c["cat"] in ("racy", "late-surplus") else [(i, a, b) for i, (a, b) in enumerate(zip(impl, model)) if compared(a) != b]
                 if len(ctx.cov["samples"]) < 6 and c["cat"] in ("sequence", "offset-request", "offset-response", "persistent") and rng.chance(1, 60):
                     ctx.sample({"ops": [o[:220] for o in c["ops"][:3]], "impl": [l[:260] for l in impl[:3]]})
                 if fails:
